@@ -36,6 +36,7 @@ type Contract struct {
 	Decreases  map[int]Clause
 	KeyedInv   map[string][]Clause // invariants keyed by loop source text ("range x.y", "for i < n")
 	KeyedDec   map[string]Clause
+	Asserts    map[string][]Clause // "call os.Symlink#0" -> assertions checked right before that call
 	Modifies   []SExpr
 	ModAll     bool
 	Lets       []LetDef
@@ -98,7 +99,7 @@ type directive struct {
 	where string
 }
 
-var labelRe = regexp.MustCompile(`^(requires|ensures|invariant|decreases)(\[([^\]]*)\])?\s+(.*)$`)
+var labelRe = regexp.MustCompile(`^(requires|ensures|invariant|decreases|assert)(\[([^\]]*)\])?\s+(.*)$`)
 
 // parseContracts scans every repo package for //@ directives.
 func (w *World) parseContracts() error {
@@ -370,7 +371,7 @@ func parseFuncHeader(hdr string) (*ast.FuncDecl, error) {
 func parseClauses(c *Contract, d *directive) error {
 	// group continuation lines into clauses
 	var clauses []string
-	kw := regexp.MustCompile(`^(requires|ensures|invariant|decreases|modifies|let|pure|trusted|noinline)\b`)
+	kw := regexp.MustCompile(`^(requires|ensures|invariant|decreases|assert|modifies|let|pure|trusted|noinline)\b`)
 	for _, ln := range d.lines {
 		if kw.MatchString(ln) {
 			clauses = append(clauses, ln)
@@ -432,6 +433,19 @@ func parseClauses(c *Contract, d *directive) error {
 				c.Requires = append(c.Requires, clause)
 			case "ensures":
 				c.Ensures = append(c.Ensures, clause)
+			case "assert":
+				key := strings.Join(strings.Fields(m[3]), " ")
+				if !strings.HasPrefix(key, "call ") {
+					return fmt.Errorf("assert[call <callee>#k] expected: %q", cl)
+				}
+				if !strings.Contains(key, "#") {
+					key += "#0"
+				}
+				if c.Asserts == nil {
+					c.Asserts = map[string][]Clause{}
+				}
+				clause.Key = key
+				c.Asserts[key] = append(c.Asserts[key], clause)
 			case "invariant", "decreases":
 				n, err := strconv.Atoi(m[3])
 				if err != nil {
